@@ -8,7 +8,7 @@ from harness import c02_ref as ref
 from harness import gen_values as gv
 from harness import valcodec as vc
 
-STREAMS = ['wire-encode', 'wire-decode', 'padding-table', 'spec-vs-reference']
+STREAMS = ['wire-encode', 'wire-decode', 'message-decode', 'padding-table', 'spec-vs-reference']
 THEOREMS = ['C02_alignTable', 'C02_padding', 'C02_encode', 'C02_decode', 'C02_encode_conf', 'C02_encode_checked',
             'C02_decode_dict', 'layout_dict_entry', 'layout_fields', 'layout_elems',
             'layout_array', 'layout_string', 'layout_signature', 'layout_variant', 'layout_struct',
@@ -175,6 +175,16 @@ def run(ctx):
         kind, tys, svs = gv.gen_large_case(rng, gv.LARGE_KINDS[i % len(gv.LARGE_KINDS)] if i < 2 * len(gv.LARGE_KINDS) else None)
         ctx.stat('decode-large:' + kind)
         decode_case(tys, svs, rng.sample(range(16), 3) + [rng.choice(c01.BIG_OFFSETS)])
+    # ---- whole messages from another implementation (the signature header field drives the body decoder)
+    for n in (1, 2, 126, 127, 128, 253, 254, 255):
+        tys = ['y'] * n
+        message_decode_case(ctx, tys, [(i * 7 + 3) % 256 for i in range(n)])
+        if n >= 3:
+            message_decode_case(ctx, [('(', tuple(['i'] * (n - 2)))], [[i - 5 for i in range(n - 2)]])
+    for _ in range(ctx.scale(quick=100, thorough=3000)):
+        tys = gv.gen_types(rng, rng.choice([1, 2, 3]), 4)
+        if 0 < len(gv.render_all(tys)) <= 255:
+            message_decode_case(ctx, tys, [gv.gen_spec_free(rng, t, 3) for t in tys])
     ctx.note('wire-decode: %s offsets per byte order and case' % ('all 16 + one of %r' % (c01.BIG_OFFSETS,)
                                                                     if ctx.tier == 'thorough' else '4 of 0..15 + one larger'))
     out = ctx.model(speclines)
@@ -183,6 +193,51 @@ def run(ctx):
         if out is not None and out[i] != specwant[i]:
             ctx.disagree('spec-vs-reference', {'line': ln[:2000]}, out[i][:2000], specwant[i][:2000])
     c01.check_unmarshal_batch(ctx, 'wire-decode', ubatch)
+
+
+HEADER_TYS = None
+
+
+def ref_message(tys, svs, le, serial=1, nfds=0):
+    """A METHOD_CALL message carrying the values, built ONLY with the reference encoder (header
+    `yyyyuua(yv)` with PATH, MEMBER, SIGNATURE [, UNIX_FDS], padding to 8, body) - what another
+    implementation would put on the wire."""
+    global HEADER_TYS
+    if HEADER_TYS is None:
+        HEADER_TYS = gv.parse_sig('yyyyuua(yv)')
+    body = ref.encode(tys, svs, 0, le)
+    sig = gv.render_all(tys)
+    fields = [[1, ('V', 'o', '/org/example/Obj')], [3, ('V', 's', 'Method')], [8, ('V', 'g', sig)]]
+    if nfds:
+        fields.append([9, ('V', 'u', nfds)])
+    header = ref.encode(HEADER_TYS, [ord('l' if le else 'B'), 1, 0, 1, len(body), serial, fields], 0, le)
+    return header + b'\0' * ((8 - len(header) % 8) % 8) + body
+
+
+def message_decode_case(ctx, tys, svs):
+    """C02's converse at the level the anchors name (txdbus/message.py): a spec-conformant MESSAGE from another
+    implementation is parsed to the values it encodes."""
+    from txdbus import message
+    sig = gv.render_all(tys)
+    fds = []
+    for t, sv in zip(tys, svs):
+        gv.collect_fds(t, sv, fds)
+    expected = [gv.expected_decoded(t, sv) for t, sv in zip(tys, svs)]
+    ctx.case('message-decode', sample={'sig': sig[:80], 'sig-length': len(sig)})
+    ctx.stat('message:signature-length=%s' % gv._bucket(len(sig), [1, 20, 126, 253, 254, 255]))
+    for le in (True, False):
+        raw = ref_message(tys, svs, le, nfds=len(fds))
+        ctx.impl_trace()
+        try:
+            m = message.parseMessage(raw, fds)
+            ok = m.signature == sig and c01.py_equal(expected, m.body)
+            observed = 'parsed, signature %r, body %s' % (m.signature[:40], 'equal' if ok else 'DIFFERENT')
+        except Exception as e:     # noqa: BLE001
+            ok, observed = False, 'parseMessage raised %s: %s' % (c01.exc_name(e), str(e)[:80])
+        if not ok:
+            ctx.violation('message-decode', 'a spec-conformant message is not parsed to the values it encodes',
+                          inp={'message': raw.hex(), 'sig': sig, 'le': le, 'fds': vc.to_line(fds)},
+                          observed=observed, expected='body == %s' % vc.to_line(expected)[:2000])
 
 
 def alternative_encoding(tys, svs, got, oob, off, le):
@@ -259,6 +314,28 @@ def decode_key(u, enc):
 def replay(ctx, data, stream='replay'):
     c01.register()
     inp = data.get('input', data)
+    if 'message' in inp:
+        from txdbus import message
+        raw, sig = bytes.fromhex(inp['message']), inp['sig']
+        fds = vc.from_line(inp.get('fds', 'L 0'))
+        ctx.case(stream, sample={'sig': sig[:80]})
+        # what the strict reference decoder reads in the body (8-aligned, after the header array)
+        le = inp['le']
+        hdr, n = ref.decode(gv.parse_sig('yyyyuua(yv)'), raw, 0, le)
+        body_at = n + (8 - n % 8) % 8
+        tys = gv.parse_sig(sig)
+        rsv, _ = ref.decode(tys, raw[body_at:], 0, le)
+        want = [_resolve(t, gv.expected_decoded(t, s), s, list(fds)) for t, s in zip(tys, rsv)]
+        try:
+            m = message.parseMessage(raw, fds)
+            ok = m.signature == sig and c01.py_equal(want, m.body)
+            observed = 'parsed, body %s' % ('equal' if ok else 'DIFFERENT')
+        except Exception as e:     # noqa: BLE001
+            ok, observed = False, 'parseMessage raised %s: %s' % (c01.exc_name(e), str(e)[:80])
+        if not ok:
+            ctx.violation('message-decode', 'a spec-conformant message is not parsed to the values it encodes',
+                          inp=inp, observed=observed, expected='body == %s' % vc.to_line(want)[:2000])
+        return
     if 'data' in inp:
         sig, off, le = inp['sig'], inp['off'], inp['le']
         fds = vc.from_line(inp.get('fds', 'L 0'))
